@@ -25,7 +25,8 @@ for pid in sorted(CLAIMED):
         "engine": "mirfacts+rules",
         "level_claimed": {"category": "other", "text": c["text"], "design_ref": c["ref"]},
         "level_note": c["note"],
-        "technique": c["technique"],
+        "technique": c["technique"] + "; thorough tier adds a sensitivity self-test of these rules (one-site breaking variants, confirmed "
+                     "sub-agent-seeded changes and behaviour-preserving refactorings applied to a scratch copy of the tree, compiled by the driver and analysed, never executed)",
     })
 m = {
     "version": 1,
@@ -41,10 +42,12 @@ m = {
         {"name": "mirfacts", "path": "/verif/mirfacts", "serves_properties": sorted(CLAIMED),
          "kind_free_text": "rustc_private driver (nightly) dumping MIR-as-built, resolved callees, ADT and const facts per workspace crate"},
         {"name": "rules", "path": "/verif/rules", "serves_properties": sorted(CLAIMED),
-         "kind_free_text": "Python rule engine over the fact files: CFG dominance / must-pass-through, guard liveness dataflow, call-graph effect reachability, def-use slicing, path-sensitive small-domain value flow, table agreement"},
+         "kind_free_text": "Python rule engine over the fact files: CFG dominance / must-pass-through, guard liveness dataflow, call-graph effect reachability, def-use slicing, path-sensitive small-domain value flow, table agreement; helpers absent from the pinned tree are inlined (lib/inline.py)"},
+        {"name": "selftest", "path": "/verif/lib/selftest.py", "serves_properties": sorted(CLAIMED),
+         "kind_free_text": "thorough tier: mutation-adequacy and false-alarm controls of the rule engine on a scratch copy of the current tree (selftest/*.json, seeded/*/patch.diff, benign/*/r*.diff)"},
     ],
     "checks": checks,
-    "notes": "Technique family: static analysis only. Every check re-extracts MIR facts from /repo's working tree when any source file changed (content hashes), fails closed (exit 2) when an anchor is missing. See DESIGN.md.",
+    "notes": "Technique family: static analysis only. Every check re-extracts MIR facts from /repo's working tree when any source file changed (content hashes), fails closed (exit 2) when an anchor is missing. Four genuine defects were found and repaired in /repo (fix: a8a23ed C03, d4f7213 C17, a25879d C17, 44c862e C16; known_findings.json lists them under fixed, nothing is open). See DESIGN.md (section 11 for seeded changes and benign controls) and RULES.md.",
     "not_applicable": [{"property_id": k, "reason": v} for k, v in sorted(NA.items())],
 }
 json.dump(m, open(os.path.join(V, "MANIFEST.json"), "w"), indent=1)
